@@ -12,4 +12,18 @@ for p in "$@"; do
   echo "$(basename $(dirname $(dirname $DIFF)))/$(basename $DIFF) check=$p rc=$rc :: $(echo "$out" | grep '^VIOLATION' | head -2 | tr '\n' ' ') $(echo "$out" | tail -1 | cut -c1-120)"
 done
 git -C "$WT" checkout -q -- .
-/venv/bin/python tools/translate.py all > /dev/null 2>&1
+# regenerate only the Gen modules these checks use (other work may be running against other modules)
+MODS=$(/venv/bin/python - "$@" <<'PY' 2>/dev/null
+import sys, importlib
+sys.path.insert(0, "tools")
+mods = []
+for pid in sys.argv[1:]:
+    try:
+        m = importlib.import_module("sv.props." + pid.lower())
+        mods += [g for g in getattr(m, "GEN", []) if g not in mods]
+    except Exception:
+        pass
+print(" ".join(mods))
+PY
+)
+[ -n "$MODS" ] && /venv/bin/python tools/translate.py $MODS > /dev/null 2>&1
